@@ -27,7 +27,8 @@ import (
 //   - integer arithmetic wraps at 64 bits; / and % by zero are runtime errors;
 //     a ** b on integers is int64(math.Pow(float64(a), float64(b)))
 //   - a shift count < 0 or >= 2^31-1 is a runtime error
-//   - an integer meeting a float is converted to float
+//   - an integer meeting a float is converted to float; a number meeting a
+//     string under + is converted to its text and concatenated
 //   - label values are the decimal / %g / verbatim text of the key expression
 //   - in an assignment the key expressions are evaluated first, then the datum
 //     is looked up (created if new), then the value: a runtime error in the
@@ -255,8 +256,10 @@ func rCompare(op string, l, r rVal) bool {
 }
 
 func (c *rCtx) arith(op string, l, r rVal) rVal {
-	if l.t == rtString && r.t == rtString && op == "+" {
-		return rVal{t: rtString, s: l.s + r.s}
+	if (l.t == rtString || r.t == rtString) && op == "+" {
+		// + on a string is concatenation; a number meeting a string is
+		// written as its decimal / %g text (Int and Float coerce to String)
+		return rVal{t: rtString, s: rKeyString(l) + rKeyString(r)}
 	}
 	if l.t == rtInt && r.t == rtInt {
 		a, b := l.i, r.i
